@@ -45,7 +45,7 @@ def run(ctx):
     if len(conns) < 10:
         raise vf.Inconclusive('only %d connections completed (%s)' % (len(conns), failed[:2]))
     e3, e4 = fc.batch_eval(ctx, [c['abstract'] for c in conns], [c['abstract'] for c in conns], name='BatchC06')
-    h2c = [c for c in conns if c['proto'] == 'h2']
+    h2c = [c for c in conns if c['proto'] == 'h2' and c.get('preamble')]
     eh2 = h2_batch(ctx, [c['preamble'] for c in h2c])
     exp = {}
     for i, c in enumerate(conns):
@@ -75,7 +75,7 @@ def run(ctx):
                     ctx.violation({'check': 'C06', 'kind': 'foreign_fingerprint' if other else 'wrong_fingerprint', 'header': k, 'proto': c['proto']},
                                   'connection %d (%s, wave %d) request %s carries %s=%r, its own connection\'s value is %r%s'
                                   % (c['id'], c['proto'], c['wave'], r['tag'], k, got, want, (' - that value belongs to connection(s) %s' % other) if other else ''),
-                                  {'conn': {x: c[x] for x in ('id', 'wave', 'proto', 'abstract', 'preamble')}, 'request': r, 'expected': e})
+                                  {'conn': {x: c.get(x) for x in ('id', 'wave', 'proto', 'abstract', 'preamble')}, 'request': r, 'expected': e})
         if len(samples) < 4 and c['id'] % 11 == 0:
             samples.append({'conn': c['id'], 'proto': c['proto'], 'expected_by_TLC': e, 'requests': c['reqs']})
     cov = {'traces_validated_against_impl': len(conns), 'samples': samples or [{'conn': conns[0]['id'], 'expected_by_TLC': exp[conns[0]['id']]}],
